@@ -101,4 +101,26 @@ LOGSPECS = {
 for prop, (title, intro, items) in LOGSPECS.items():
     if ONLY and prop not in ONLY: continue
     gen(prop, title, intro, items, os.path.join(LEAN, "Ebu", "Props", prop + ".lean"), ["Ebu.Spec.Log", "Ebu.Proofs.Log"], ns="Ebu.Log", opens="Ebu.Log Ebu.Replay")
-print("generated", list(SPECS) + list(LOGSPECS))
+S = "Ebu/Proofs/State.lean"
+STATESPECS = {
+ "C18": ("Materialized state is the fold of the message log",
+   "Model: M7 (`Ebu/Model/State.lean`). `lastWrite` is the declarative meaning of a log for one (entity type, key).",
+   [(S,"materialize_eq_fold","materialize_eq_fold"),(S,"identities","identities"),(S,"reset_empties_all","reset_empties_all"),(S,"lastOffset_spec","lastOffset_spec"),
+    (S,"apply_config","configuration_constant"),(S,"replay_spec","replay_spec"),(S,"resume_equiv","resume_equiv"),(S,"compositeKey_inj","compositeKey_inj")], "Ebu.State"),
+ "C19": ("State messages survive the round trip; bad input is rejected without damage",
+   "Models: M7b (`Ebu/Model/StateWire.lean`, wire format and the discrimination logic of Apply) and M7.",
+   [(S,"decode_encode_change","decode_encode_change"),(S,"decode_encode_control","decode_encode_control"),(S,"wire_field_names","wire_field_names"),(S,"decode_notObject","non_object_rejected"),
+    (S,"apply_error_no_change","apply_error_no_change"),(S,"apply_err_iff","apply_err_iff")], None),
+}
+for prop, (title, intro, items, ns) in STATESPECS.items():
+    if ONLY and prop not in ONLY: continue
+    # items of C19 live in two namespaces: qualify per item
+    L = ["import Ebu.Spec.State", "import Ebu.Proofs.State", "/-!", "%s — %s" % (prop, title), "", intro, "-/", "namespace Ebu.Props.%s" % prop, "open Ebu.State Ebu.StateWire", ""]
+    for (path, name, newname) in items:
+        doc, sig = blocks(os.path.join(LEAN, path))[name]
+        binders, pre, stmt = split_sig(sig)
+        q = "Ebu.StateWire" if name in ("decode_encode_change", "decode_encode_control", "wire_field_names", "decode_notObject") else "Ebu.State"
+        L.append(doc + "theorem %s%s:%s:=\n  %s.%s %s\n" % (newname, pre, stmt.rstrip() + " ", q, name, " ".join(args_of(binders))))
+    L.append("end Ebu.Props.%s" % prop)
+    open(os.path.join(LEAN, "Ebu", "Props", prop + ".lean"), "w").write("\n".join(L) + "\n")
+print("generated", list(SPECS) + list(LOGSPECS) + list(STATESPECS))
